@@ -292,6 +292,15 @@ Section WithBody.
           else (Ok (if full then Full (xres st) else Value v), xlog st, xc st)
       end.
 
+  (* Pipeline.run since the repair "validate the keyword arguments of Pipeline.run before executing anything":
+     Pipe.run_precheck comes first (also before any cache look-up), `crun` is the evaluation proper *)
+  Definition crun_checked (use : bool) (p : pipeline) (c : C) (o : str) (kw : alist) (full : bool)
+    : result outcome * list call * C :=
+    match run_precheck p o kw with
+    | Err e => (Err e, [], c)
+    | Ok _ => crun use p c o kw full
+    end.
+
   (* ---------- mutations ---------- *)
   Definition aupdate (l upd : alist) : alist := fold_left (fun acc kv => aset acc (fst kv) (snd kv)) upd l.
   Definition set_dflt (f : pfunc) (d : alist) : pfunc := mkf (fname f) (outs f) (params f) d (bound f) (cached f).
@@ -367,6 +376,23 @@ Section WithBody.
                                         | _, _ => cclear P c
                                         end in
         OMut r :: exec_hist use p' c' t
+    end.
+
+  (* the same history on the code since the repair "validate the keyword arguments of Pipeline.run before executing
+     anything" (crun_checked); it coincides with exec_hist on histories whose calls pass Pipe.run_precheck *)
+  Fixpoint exec_hist_checked (use : bool) (p : pipeline) (c : C) (h : list step) : list sobs :=
+    match h with
+    | [] => []
+    | Call o kw full :: t =>
+        let '(r, lg, c') := crun_checked use p c o kw full in
+        OCall r lg :: exec_hist_checked use p c' t
+    | m :: t =>
+        let '(p', r) := mutate m p in
+        let c' := if legacy then c else match r, m with
+                                        | Err _, UpdBound _ _ | Err _, Replace _ => c
+                                        | _, _ => cclear P c
+                                        end in
+        OMut r :: exec_hist_checked use p' c' t
     end.
 
   (* the pipelines a history goes through (for the well-formedness side condition of the theorems) *)
